@@ -375,6 +375,21 @@ class Engine:
         body, _labels = parse_routine_body(after.strip())
         self.routines[name] = Routine(kind, name, params, body, source_file, returns)
 
+    def clone(self, seed=0):
+        """A fresh engine with the same schema, routines, parsed-statement cache and a copy of the rows."""
+        e = Engine(seed)
+        for name, t in self.tables.items():
+            t2 = Table(name)
+            t2.cols, t2.colmap, t2.pk, t2.uniques, t2.fks = t.cols, t.colmap, t.pk, t.uniques, t.fks
+            t2.rows = [dict(r) for r in t.rows]
+            t2.autoinc_next = t.autoinc_next
+            e.tables[name] = t2
+        e.routines, e.triggers = self.routines, self.triggers
+        e.unparsable = getattr(self, "unparsable", {})
+        e.stmt_cache = self.stmt_cache
+        e.utc_date = self.utc_date
+        return e
+
     # ---- sessions -------------------------------------------------------------------------------------
     def connect(self):
         return Session(self)
